@@ -166,6 +166,11 @@ where
             });
 
             *result.lock().unwrap() = Some(Ok(f()));
+
+            // As in `std`, the thread-locals are destroyed before the thread
+            // counts as finished: `join` returns after their destructors ran.
+            rt::drop_thread_locals();
+
             notify.notify(location);
         })
     };
